@@ -30,8 +30,8 @@ import (
 
 func pick(rng *rand.Rand, xs ...int) int { return xs[rng.Intn(len(xs))] }
 
-func genCase(rng *rand.Rand, n int, h6 bool) Case {
-	c := Case{N: n, Seed: rng.Int63()}
+func genCase(rng *rand.Rand, n int, h6, race bool) Case {
+	c := Case{N: n, Seed: rng.Int63(), Race: race}
 	switch x := rng.Intn(100); {
 	case x < 52:
 		c.Kind = "tcp"
@@ -44,19 +44,42 @@ func genCase(rng *rand.Rand, n int, h6 bool) Case {
 	default:
 		c.Kind = "single"
 	}
+	if k := os.Getenv("VERIF_C06_KIND"); k != "" { // development aid (mutation runs): only this kind of link
+		c.Kind = k
+	}
 	c.NS = 1 + rng.Intn(4)
 	c.NR = 1 + rng.Intn(3)
 	c.ChanSize = 1 + rng.Intn(4)
 	c.ReadMs = pick(rng, 5, 8, 12, 20, 30)
 	c.WriteMs = pick(rng, 5, 8, 12, 20, 50)
 	c.DialMs = pick(rng, 20, 50, 100)
-	target := 300
+	target := 220
+	if race {
+		target = 70 // the race-detector build is 5-10x slower
+	}
 	if c.mailboxKind() {
 		c.Proxy = rng.Intn(100) < 55
 	}
 	oneSend := c.Kind == "relaxed" || c.Kind == "single"
-	if c.Kind == "single" {
-		c.ChanSize = target + 64 // SingleOutputChan must never find the channel full (documented: it cannot abort)
+	if c.Kind == "single" && rng.Intn(2) == 0 {
+		c.ChanSize = target + 64 // the channel never fills: SingleOutputChan's write can only time out by scheduling delay
+	}
+	if race {
+		// the race-detector build is several times slower: with the smallest timeouts nothing would ever commit
+		c.ReadMs, c.WriteMs, c.DialMs = 3*c.ReadMs, 4*c.WriteMs, 4*c.DialMs
+		if c.ReadMs > 60 {
+			c.ReadMs = 60
+		}
+	}
+	if c.mailboxKind() && !race && rng.Intn(100) < 12 {
+		// big messages: a stopped receiver / a delaying proxy now fills the socket buffers, so that writes block
+		// and time out ("full buffers")
+		c.Pad = pick(rng, 64<<10, 256<<10)
+		target = 48
+		c.Proxy = true
+		if c.WriteMs < 20 {
+			c.WriteMs = 20
+		}
 	}
 	perSender := target / c.NS
 	for s := 0; s < c.NS; s++ {
@@ -113,7 +136,7 @@ func genCase(rng *rand.Rand, n int, h6 bool) Case {
 			rp.LenPct = pick(rng, 0, 15, 40)
 		}
 		if rng.Intn(100) < 60 {
-			rp.PauseEvery = 4 + rng.Intn(25)
+			rp.PauseEvery = 8 + rng.Intn(25)
 			rp.PauseMs = pick(rng, c.WriteMs+2, 2*c.WriteMs+5, 3*c.WriteMs, 60)
 		}
 		c.Receivers = append(c.Receivers, rp)
@@ -122,10 +145,13 @@ func genCase(rng *rand.Rand, n int, h6 bool) Case {
 		for s := 0; s < c.NS; s++ {
 			for r := 0; r < c.NR; r++ {
 				lp := LinkPlan{S: s, R: r}
-				for k := rng.Intn(5); k > 0; k-- {
-					d := Delay{Dir: "s2c", Conn: pick(rng, 0, 0, 0, 1, 1, 2), Chunk: rng.Intn(30), Ms: pick(rng, c.WriteMs/2, c.WriteMs+c.WriteMs/2+3, 3*c.WriteMs)}
-					if rng.Intn(4) == 0 {
+				for k := rng.Intn(9); k > 0; k-- {
+					d := Delay{Dir: "s2c", Conn: pick(rng, 0, 0, 0, 0, 1, 1, 2), Chunk: rng.Intn(40), Ms: pick(rng, c.WriteMs/2, c.WriteMs+c.WriteMs/2+3, 3*c.WriteMs)}
+					if rng.Intn(4) == 0 || (c.Pad > 0 && rng.Intn(2) == 0) {
 						d.Dir = "c2s"
+					}
+					if c.Pad > 0 {
+						d.Ms = pick(rng, 3*c.WriteMs, 6*c.WriteMs, 150)
 					}
 					lp.Delays = append(lp.Delays, d)
 				}
@@ -159,8 +185,8 @@ func crashKey(kind, out string) (key, line string) {
 			break
 		}
 	}
-	if line == "" {
-		return "", ""
+	if line == "" || strings.Contains(line, "could not listen on address") {
+		return "", "" // a port picked by the harness was taken meanwhile by another process: nothing was observed
 	}
 	slug := strings.Trim(nonAlnum.ReplaceAllString(digits.ReplaceAllString(line, ""), "-"), "-")
 	if len(slug) > 70 {
@@ -207,14 +233,13 @@ func main() {
 		replay(r, assumptions)
 		return
 	}
-	nCases := r.Pick(40, 1100)
+	nCases := r.Pick(36, 600)
 	workers := r.Pick(8, 14)
 	rng := r.Rand("cases")
 	raceBin := os.Getenv("VERIF_RACE_BIN")
 	cases := make([]Case, nCases)
 	for i := range cases {
-		cases[i] = genCase(rng, i, true)
-		cases[i].Race = raceBin != "" && i%4 == 3
+		cases[i] = genCase(rng, i, true, raceBin != "" && i%6 == 5)
 	}
 	scratch := common.Scratch("c06")
 	defer os.RemoveAll(scratch)
@@ -226,6 +251,7 @@ func main() {
 	var distinct common.Distinct
 	samples := common.SampleKeeper{N: 6}
 	evaluations := 0
+	var walls []float64
 	addStats := func(st Stats) {
 		buf, _ := json.Marshal(st)
 		var m map[string]any
@@ -256,8 +282,14 @@ func main() {
 			exe = raceBin
 			env = append(env, "GORACE=halt_on_error=0 log_path="+filepath.Join(dir, "race"))
 		}
-		res := common.RunChild(exe, "case", dir, env, 150*time.Second, casePath, evPath)
+		res := common.RunChild(exe, "case", dir, env, time.Duration(r.Pick(100, 240))*time.Second, casePath, evPath)
 		evs, _, _ := readEvents(evPath)
+		mu.Lock()
+		walls = append(walls, res.Wall.Seconds())
+		mu.Unlock()
+		if os.Getenv("VERIF_C06_DEBUG") != "" {
+			fmt.Printf("debug: case %d %s %dx%d proxy=%v race=%v pad=%d chan=%d r/w=%d/%d wall=%.1fs events=%d\n", i, c.Kind, c.NS, c.NR, c.Proxy, c.Race, c.Pad, c.ChanSize, c.ReadMs, c.WriteMs, res.Wall.Seconds(), len(evs))
+		}
 		label := fmt.Sprintf("case %d (%s %dx%d proxy=%v race=%v)", i, c.Kind, c.NS, c.NR, c.Proxy, c.Race)
 		if c.Race {
 			rs := raceSigs(dir)
@@ -271,14 +303,23 @@ func main() {
 			r.Inconclusive(label + ": watchdog")
 			return
 		}
+		if c.Race && res.ExitCode == 66 {
+			res.ExitCode = 0 // the race detector's exit status when it reported something (GORACE exitcode default)
+		}
+		if res.ExitCode == 5 {
+			res.ExitCode = 0 // event cap reached: judge what was recorded; the case cannot be complete
+		}
 		if res.ExitCode != 0 {
 			if key, line := crashKey(c.Kind, res.Output); key != "" {
+				if k2, ok := classifyCrash(c, evs, res.Output); ok {
+					key = k2
+				}
 				tail := res.Output
 				if len(tail) > 6000 {
 					tail = tail[:3000] + "\n…\n" + tail[len(tail)-3000:]
 				}
 				f := Finding{Key: key, Desc: "the process died under timeouts/aborts only: " + line}
-				r.Report(key, f.Desc, witness{Case: *c, Finding: f, Events: tailEvents(evs, 400), Output: tail})
+				r.Report(key, f.Desc, witness{Case: *c, Finding: f, Events: tailEvents(evs, 3000), Output: tail})
 				mu.Lock()
 				evaluations++
 				mu.Unlock()
@@ -313,14 +354,23 @@ func main() {
 		}
 		samples.Add(map[string]any{
 			"case": map[string]any{"n": c.N, "kind": c.Kind, "senders": c.NS, "receivers": c.NR, "chan_size": c.ChanSize,
-				"read_ms": c.ReadMs, "write_ms": c.WriteMs, "proxy": c.Proxy, "delayed_links": len(c.Links), "race": c.Race, "mbox": c.Mbox,
+				"read_ms": c.ReadMs, "write_ms": c.WriteMs, "proxy": c.Proxy, "pad_bytes": c.Pad, "delayed_links": len(c.Links), "race": c.Race, "mbox": c.Mbox,
 				"first_sections_of_sender_0": firstN(c.Senders[0].Sections, 4), "receiver_0": c.Receivers[0]},
-			"observed": st,
-			"findings": len(fs),
+			"observed":        st,
+			"findings":        len(fs),
+			"history_excerpt": excerpt(evs, 40),
 		})
 	})
 
 	extra := map[string]any{"totals": tot, "cases_by_kind": kinds, "events": tot["events"]}
+	if len(walls) > 0 {
+		sort.Float64s(walls)
+		sum := 0.0
+		for _, w := range walls {
+			sum += w
+		}
+		extra["case_wall_s"] = map[string]any{"mean": sum / float64(len(walls)), "median": walls[len(walls)/2], "max": walls[len(walls)-1]}
+	}
 	if len(races) > 0 {
 		keys := make([]string, 0, len(races))
 		for k := range races {
@@ -336,6 +386,7 @@ func main() {
 	} else {
 		extra["races_observed"] = []any{}
 	}
+	_ = os.RemoveAll(scratch) // Finish exits the process: deferred calls do not run
 	r.Finish(common.Coverage{
 		Evaluations:        evaluations,
 		DistinctNontrivial: distinct.Len(),
@@ -344,6 +395,15 @@ func main() {
 		Floor:              r.Pick(10, 200),
 		Extra:              extra,
 	}, assumptions)
+}
+
+// excerpt returns n consecutive events from the middle of a history (sends, reads, commit/abort points, log lines).
+func excerpt(evs []Ev, n int) []Ev {
+	if len(evs) <= n {
+		return evs
+	}
+	mid := len(evs) / 2
+	return evs[mid : mid+n]
 }
 
 func firstN(s []SectionPlan, n int) []SectionPlan {
@@ -377,6 +437,9 @@ func replay(r *common.Run, assumptions []string) {
 	n := 0
 	if strings.Contains(w.Finding.Key, ":process-crash:") {
 		// the history ends with the crash; the stored output is the witness
+		if k2, ok := classifyCrash(&w.Case, w.Events, w.Output); ok {
+			w.Finding.Key = k2
+		}
 		r.Report(w.Finding.Key, w.Finding.Desc, w)
 		n = 1
 	} else {
